@@ -253,7 +253,7 @@ def run(ctx):
 def _imports(ctx):
     from props.common import import_rules
 
-    import_rules(ctx, "C06", {"C06.b", "C06.c", "C06.e"}, "C19.f", "imported from C06 (the recorder's registry): one hash/shard/key per lookup, check-and-insert in one critical section, every constructed Key carries the hash of its own (name, labels) — otherwise two registrations of one key (racing, or through equal keys built differently) get two storages and the values recorded through the orphaned handle appear in no snapshot", floor=14)
+    import_rules(ctx, "C06", {"C06.b", "C06.c", "C06.d", "C06.e"}, "C19.f", "imported from C06 (the recorder's registry): one hash/shard/key per lookup, check-and-insert in one critical section, every constructed Key carries the hash of its own (name, labels) — otherwise two registrations of one key (racing, or through equal keys built differently) get two storages and the values recorded through the orphaned handle appear in no snapshot", floor=14)
     import_rules(ctx, "C05", {"C05.b", "C05.c", "C05.d", "C05.e"}, "C19.h", "imported from C05 (the histogram storage the snapshot drains): a detached block is read only after its in-flight writes are waited for, blocks are linked before they are published, claims are fenced before a block is read, one clearer wins the detach — otherwise a value recorded while a snapshot is taken appears in no snapshot", floor=6)
     import_rules(ctx, "C04", {"C04.b", "C04.c"}, "C19.i", "imported from C04 (the counter/gauge storage whose value the snapshot reads): updates are single atomic read-modify-write operations — otherwise the snapshot's value is not the handle's state", floor=5)
     import_rules(ctx, "C03", {"C03.a", "C03.c", "C03.d"}, "C19.j", "imported from C03 (the Key hash/equality contract behind the registry lookup and the first-registration index): same canonical form in hasher, == and cmp; lazily memoised hash published before its flag — otherwise one metric is registered under two entries (listed twice, its state split) or two metrics share one", floor=7)
